@@ -21,8 +21,9 @@ def build(case):
         g.add_node(x)
     for c in range(1, n + 1):
         for p in case['par'][c - 1]:
-            nodes[p].children.append(nodes[c])
-            nodes[c].parents.append(nodes[p])
+            for _ in range(2 if case.get('dup') else 1):      # the same edge listed twice (two expressions, one target)
+                nodes[p].children.append(nodes[c])
+                nodes[c].parents.append(nodes[p])
     a = Attacker(name='a')
     g.add_attacker(a)
     b = Attacker(name='b')          # a second attacker that has compromised everything must not matter
@@ -89,7 +90,7 @@ class Adapter:
         if json.dumps(g._to_dict(), sort_keys=True, default=str) != mid:
             div('query_mutated_graph', {'after': 'incremental update'})
         if case['surf2']:
-            res['nontrivial'] = json.dumps([case[k] for k in ('kind', 'par', 'V', 'N', 'R', 'R2', 'st', 'supp')])
+            res['nontrivial'] = json.dumps([case[k] for k in ('kind', 'par', 'V', 'N', 'R', 'R2', 'st', 'supp', 'dup')])
         res['sample'] = {k: case[k] for k in ('kind', 'par', 'V', 'N', 'R', 'R2', 'surf', 'surf2')}
         res['div'] = res['div'][:3]
         return res
